@@ -63,11 +63,19 @@ Fixpoint nset (n : node) (p : path) (v : node) : option node :=
 (* ---- expressions -------------------------------------------------------------- *)
 Inductive binop := BAdd | BSub | BMul.
 
+Inductive proj := PReal | PImag | PNum | PDen.
+
+(* on Python ints: x.real = x.numerator = x, x.imag = 0, x.denominator = 1 *)
+Definition proj_val (k : proj) (x : Z) : Z :=
+  match k with PReal | PNum => x | PImag => 0 | PDen => 1 end.
+
 Inductive expr :=
 | EConst (z : Z)
 | ERef (p : path)
 | EBin (o : binop) (a b : expr)
-| ECallSum (f : path) (arg : path).     (* f(arg) where the store holds FunSum at f *)
+| ECallSum (f : path) (arg : path)      (* f(arg) where the store holds FunSum at f *)
+| EProj (k : proj) (a : expr).          (* an attribute of an expression's VALUE: (a).real, .imag, .numerator, .denominator —
+                                           an AttrRef whose owner is an expression node, not a container *)
 
 Definition bin (o : binop) (x y : Z) : Z :=
   match o with BAdd => x + y | BSub => x - y | BMul => x * y end.
@@ -93,6 +101,11 @@ Fixpoint eval (st : node) (e : expr) : option node :=
       | Some FunSum, Some (Dict kids) => option_map Leaf (sum_leaves kids)
       | _, _ => None
       end
+  | EProj k a =>
+      match eval st a with
+      | Some (Leaf x) => Some (Leaf (proj_val k x))
+      | _ => None
+      end
   end.
 
 (* the locations an expression reads *)
@@ -102,6 +115,7 @@ Fixpoint reads (e : expr) : list path :=
   | ERef p => [p]
   | EBin _ a b => reads a ++ reads b
   | ECallSum f a => [f; a]
+  | EProj _ a => reads a
   end.
 
 (* MutableRef._get_dependencies: the reference and its enclosing containers
